@@ -241,3 +241,41 @@ class time_rsub:
 
     def ensures(result, self, other):
         return [("class", result.cls is Duration), ("signed_difference_to_the_microsecond", eq(result.us, sym.sub(tod(other), tod(self))))]
+
+
+
+# ---- replace (C11: behaves like the native time.replace on the same fields) ----------------------------------
+def _replace_case(mask):
+    names = ("hour", "minute", "second", "microsecond")
+    given = [n for i, n in enumerate(names) if mask >> i & 1]
+
+    class case:
+        def applies(self, **a):
+            return False
+
+        def args(F):
+            o, c = fresh_ptime(F)
+            a = dict(self=o)
+            cons = [c]
+            for n in given:
+                a[n] = F.int(f"new_{n}")
+            return a, cons
+
+        raises = [(ValueError, "field_out_of_range", lambda self, **a: Not(spec.valid_time(
+            a.get("hour", self.hour), a.get("minute", self.minute), a.get("second", self.second), a.get("microsecond", self.microsecond))))]
+
+        def result(F, **a):
+            raise NotImplementedError
+
+        def ensures(result, self, **a):
+            return [("class_kept", isinstance(result, Obj) and result.cls is self.cls),
+                    ("given_fields_replaced_others_kept", And(*[eq(result.f[n], a[n] if n in a else self.f[n]) for n in names])),
+                    ("tzinfo_kept", result.tzinfo is self.tzinfo)]
+
+    case.__name__ = "+".join(given) or "nothing"
+    return case
+
+
+@contract("pendulum.time.Time.replace", props=["C11"])
+class time_replace:
+    cases = {c.__name__: c for c in (_replace_case(m) for m in range(16))}
